@@ -132,3 +132,11 @@ Definition root_causes_fx3 (hs : bool) (t : striple) (l : layout) : list bool :=
   [false; false; false; false; false; false; rc_F7_fx3 hs t l; false].
 
 Definition C06_dom_fx3 (hs : bool) (t : striple) (l : layout) : bool := forallb negb (root_causes_fx3 hs t l).
+
+(** ** F9: the reader has no notion of a comment line or of a blank line.  Every line the line
+    reader delivers is tokenised: a comment line counts as an error line, or -- when exactly
+    three tokens can be read out of it, e.g. a commented-out statement -- yields a triple that
+    the document does not state.  The raw-string line reader drops blank lines itself; the file
+    line reader does not, so there a blank line counts as an error line too. *)
+Definition rc_F9 (d : dline) : bool := match d with DComment _ _ => true | _ => false end.
+Definition rc_F9_file (d : dline) : bool := match d with DStmt _ _ => false | _ => true end.
